@@ -1,2 +1,5 @@
 import GoderiveModel.U.Ty
 import GoderiveModel.U.Val
+import GoderiveModel.S.EqualSupported
+import GoderiveModel.Lemmas.Equal
+import GoderiveModel.Props.C02
